@@ -113,33 +113,8 @@ def generate(run_seed, cfg):
                     runs.append((other[0], other[1], None))
                     break
     names = ["inc_a.inc", "part_b.h", "c_frag.f90"][: len(runs)]
-    quote = [sw.choice(["'", '"']) for _ in runs]
-    kw = [sw.choice(["include", "INCLUDE", "Include"]) for _ in runs]
-
-    def inc_line(k, depth_ind):
-        return " " * depth_ind + "%s %s%s%s" % (kw[k], quote[k], names[k], quote[k])
-
-    def render(lo, hi, exclude):
-        """lines lo..hi with child runs replaced by include lines."""
-        out = []
-        k = lo
-        while k <= hi:
-            child = next((c for c in exclude if runs[c][0] == k), None)
-            if child is not None:
-                out.append(inc_line(child, sw.choice([0, 1, 3, 6])))
-                k = runs[child][1] + 1
-            else:
-                out.append(lines[k])
-                k += 1
-        return out
-
-    children = {None: [k for k, r in enumerate(runs) if r[2] is None]}
-    for k, r in enumerate(runs):
-        children[k] = [c for c, rr in enumerate(runs) if rr[2] == k]
-    main_lines = render(0, n - 1, children[None])
-    frag = {}
-    for k, r in enumerate(runs):
-        frag[names[k]] = "\n".join(render(r[0], r[1], children[k])) + "\n"
+    inc_fmt = [[sw.choice(["include", "INCLUDE", "Include"]), sw.choice(["'", '"']),
+                sw.choice([0, 1, 3, 6])] for _ in runs]
     # ---- directories, decoys, search path
     perm = DIRS[:]
     sw.shuffle(perm)
@@ -147,21 +122,20 @@ def generate(run_seed, cfg):
     use_default_dirs = sw.random() < 0.15
     kind = sw.choice(["string", "file"])
     main_path = "main.f90" if sw.random() < 0.7 else "src/main.f90"
-    image = {}
+    place = {}
     fault = {}
     absent = []
-    decoy_text = " decoy_var = 424242\n"
     for k, nm in enumerate(names):
+        place[nm] = {"real": [], "decoy": [], "isdir": []}
         if absent_mode and k == 0:
             how = sw.choice(["absent", "absent", "isdir", "off_path"])
             absent.append(nm)
             if how == "isdir":
-                image["%s/%s" % (include_dirs[0], nm)] = None
+                place[nm]["isdir"].append("%s/%s" % (include_dirs[0], nm))
             elif how == "off_path":
                 off = [d for d in DIRS if d not in include_dirs]
                 if off and not use_default_dirs:
-                    image["%s/%s" % (off[0], nm)] = frag[nm]
-                    how = "off_path"
+                    place[nm]["real"].append("%s/%s" % (off[0], nm))
                 else:
                     how = "absent"
             fault[nm] = how
@@ -169,16 +143,14 @@ def generate(run_seed, cfg):
         if use_default_dirs:
             # default search path: directory of the main file (file reader) then "."
             base = os.path.dirname(main_path) if (kind == "file" and sw.random() < 0.5) else ""
-            image[os.path.join(base, nm) if base else nm] = frag[nm]
+            place[nm]["real"].append(os.path.join(base, nm) if base else nm)
             continue
         pos = sw.randrange(len(include_dirs))
-        image["%s/%s" % (include_dirs[pos], nm)] = frag[nm]
+        place[nm]["real"].append("%s/%s" % (include_dirs[pos], nm))
         for later in include_dirs[pos + 1:]:
             if sw.random() < 0.6:
-                image["%s/%s" % (later, nm)] = decoy_text
+                place[nm]["decoy"].append("%s/%s" % (later, nm))
                 fault.setdefault(nm, "decoy")
-    for d in DIRS:
-        image.setdefault(d + "/.keep", "")
     # ---- optional observation-only / decode faults on a resolvable file
     obs = None
     cand = [nm for nm in names if nm not in absent]
@@ -197,12 +169,56 @@ def generate(run_seed, cfg):
         else:
             walk.append(["restore", w.randrange(0, 6)])
     walk.append(["drain"])
-    return {"prop": ID, "std": std, "lines": lines, "runs": [list(r) for r in runs],
-            "names": names, "main_lines": main_lines, "image": image,
+    case = {"prop": ID, "std": std, "lines": lines, "runs": [list(r) for r in runs],
+            "names": names, "inc_fmt": inc_fmt, "place": place,
             "include_dirs": None if use_default_dirs else include_dirs, "reader": kind,
             "main_path": main_path, "absent": absent, "fault": fault, "obs": obs,
             "bad_utf8": bad_utf8, "ignore_comments": sw.random() < 0.6, "walk": walk,
             "kinds": [s.kind for s in stmts], "labels": [s.label for s in stmts]}
+    return materialise(case)
+
+
+DECOY_TEXT = " decoy_var = 424242\n"
+
+
+def materialise(case):
+    """(Re)compute the main text and the file-system image from lines / runs / placement."""
+    lines, runs, names, fmt = case["lines"], case["runs"], case["names"], case["inc_fmt"]
+
+    def inc_line(k):
+        kw, quote, ind = fmt[k]
+        return " " * ind + "%s %s%s%s" % (kw, quote, names[k], quote)
+
+    def render(lo, hi, exclude):
+        out = []
+        k = lo
+        while k <= hi:
+            child = next((c for c in exclude if runs[c][0] == k), None)
+            if child is not None:
+                out.append(inc_line(child))
+                k = runs[child][1] + 1
+            else:
+                out.append(lines[k])
+                k += 1
+        return out
+
+    children = {None: [k for k, r in enumerate(runs) if r[2] is None]}
+    for k in range(len(runs)):
+        children[k] = [c for c, rr in enumerate(runs) if rr[2] == k]
+    case["main_lines"] = render(0, len(lines) - 1, children[None])
+    image = {}
+    for k, nm in enumerate(names):
+        frag = "\n".join(render(runs[k][0], runs[k][1], children[k])) + "\n"
+        for pth in case["place"][nm]["real"]:
+            image[pth] = frag
+        for pth in case["place"][nm]["decoy"]:
+            image[pth] = DECOY_TEXT
+        for pth in case["place"][nm]["isdir"]:
+            image[pth] = None
+    for d in DIRS:
+        image.setdefault(d + "/.keep", "")
+    case["image"] = image
+    return case
 
 
 def sample_view(case):
@@ -350,17 +366,17 @@ def execute(case):
             probe("resolved_include_compared")
             compared = True
             if not fp.same_outcome(outcome, ref_full["outcome"]):
-                k = _first_diff_run(case, outcome, ref_full)
+                k = 0
                 r = runs[k]
                 first_line = lines[r[0]]
-                if first_line[:1] in "cC*!" and first_line[:1] != " ":
-                    hint = "fragment-first-line-starts-with-comment-char-in-col1"
-                elif case["labels"][r[0]] is not None or first_line.lstrip()[:1].isdigit():
-                    hint = "fragment-first-line-starts-with-label"
-                elif first_line.startswith("      ") or first_line.startswith("     "):
-                    hint = "fragment-first-line-indented-ge5"
+                if outcome[0] == "ok" and "decoy_var" in outcome[2]:
+                    hint = "decoy-statement-in-tree"
+                elif any(rr[2] is not None for rr in runs):
+                    hint = "nested-include"
+                elif len(runs) > 1:
+                    hint = "several-includes"
                 else:
-                    hint = "other"
+                    hint = "single-include"
                 what = outcome[0] if outcome[0] != "ok" else "tree-differs"
                 violate("C13.a included-differs-from-inlined", "%s/%s" % (what, hint),
                         {"got": fp.outcome_digest(outcome), "fragment_first_line": first_line,
@@ -511,15 +527,16 @@ def _first_diff_run(case, outcome, ref_full):
 
 # --------------------------------------------------------------------------- shrinking
 def shrink_candidates(case):
-    """The split structure makes generic shrinking awkward: drop the walk, prefer the
-    string reader, drop comments option; programs are small already."""
+    """Smaller cases: no walk, string reader, comments ignored, fewer include files (a run is
+    inlined back into its parent), fewer statements (lines dropped, runs re-indexed)."""
     import copy
 
     if case["walk"] != [["drain"]]:
         c = copy.deepcopy(case)
         c["walk"] = [["drain"]]
         yield c
-    if case["reader"] != "string" and case["main_path"] == "main.f90":
+    if case["reader"] != "string" and case["main_path"] == "main.f90" and \
+            case["include_dirs"] is not None:
         c = copy.deepcopy(case)
         c["reader"] = "string"
         yield c
@@ -527,3 +544,61 @@ def shrink_candidates(case):
         c = copy.deepcopy(case)
         c["ignore_comments"] = True
         yield c
+    # inline a run back (never the absent one)
+    for k in range(len(case["runs"]) - 1, -1, -1):
+        nm = case["names"][k]
+        if nm in case["absent"] or len(case["runs"]) < 2:
+            continue
+        if case.get("obs") and case["obs"][0] == nm or case.get("bad_utf8") == nm:
+            continue
+        c = copy.deepcopy(case)
+        parent = c["runs"][k][2]
+        del c["runs"][k], c["names"][k], c["inc_fmt"][k]
+        c["place"].pop(nm)
+        c["fault"].pop(nm, None)
+        for r in c["runs"]:
+            if r[2] is not None:
+                if r[2] == k:
+                    r[2] = parent
+                elif r[2] > k:
+                    r[2] -= 1
+        yield materialise(c)
+    # drop lines (chunks first)
+    n = len(case["lines"])
+    chunk = max(1, n // 2)
+    while chunk >= 1:
+        for start in range(0, n, chunk):
+            c = _drop_lines(case, start, min(n, start + chunk))
+            if c is not None:
+                yield c
+        if chunk == 1:
+            break
+        chunk //= 2
+
+
+def _drop_lines(case, lo, hi):
+    """Remove lines[lo:hi]; returns None if a run would become empty."""
+    import copy
+
+    if hi - lo >= len(case["lines"]):
+        return None
+    c = copy.deepcopy(case)
+    cnt = hi - lo
+    for r in c["runs"]:
+        i, j = r[0], r[1]
+        ni = i - max(0, min(cnt, i - lo)) if i > lo else i
+        inside = max(0, min(j + 1, hi) - max(i, lo))
+        before = max(0, min(i, hi) - lo)
+        ni = i - before
+        nj = j - before - inside
+        if nj < ni:
+            return None
+        r[0], r[1] = ni, nj
+    del c["lines"][lo:hi], c["kinds"][lo:hi], c["labels"][lo:hi]
+    # nested runs must still lie strictly inside their parents and siblings stay disjoint
+    for r in c["runs"]:
+        if r[2] is not None:
+            p = c["runs"][r[2]]
+            if not (p[0] <= r[0] and r[1] <= p[1]) or (p[0] == r[0] and p[1] == r[1]):
+                return None
+    return materialise(c)
